@@ -1016,6 +1016,8 @@ class AnsiString:
             raise TypeError(f'value is invalid type: {type(value)}')
 
         shift = len(self._s)
+        # Settings on my last character, in order of precedence
+        settings_at_end = self.ansi_settings_at(shift - 1)
         self._s += incoming_str
         find_settings = []
         replace_settings = []
@@ -1026,6 +1028,11 @@ class AnsiString:
                     key == shift
                     and settings.add
                     and self._fmts[key].rem[:len(settings.add)] == settings.add
+                    # My settings may only be carried over when they have the same precedence as the incoming ones
+                    and [
+                        s for s in settings_at_end
+                        if __class__._find_setting_reference(s, self._fmts[key].rem[:len(settings.add)]) >= 0
+                    ] == settings.add
                 ):
                     # Special case - the string being added contains same formatting as end of my string.
                     # Because the settings work based on references instead of values, the settings not only
